@@ -81,13 +81,22 @@ def check(ctx, otree, leaves0, odsl, cfg):  # noqa: C901, PLR0912, PLR0915
         r2 = outcome_of(lambda: optree.tree_transpose(ospec, other_nil, composed))
         if r2 != ('exc', 'ValueError'):
             ctx.violation('none_is_leaf-mismatch', f'{PROP}:none_is_leaf-mismatch', case, repr(r2))
-        wrong = ref_unflatten(oflat.desc, [*inners[:-1], un.Leaf(-1)]) if n != 1 else ref_unflatten(
-            oflat.desc, [*inners[:-1], (un.Leaf(-1), un.Leaf(-2))])
-        r3 = outcome_of(lambda: optree.tree_transpose(ospec, ispec, wrong, is_leaf=kw['is_leaf']))
-        if e1.ref_flatten(wrong, cfg).desc.num_leaves == m * n:
-            ctx.extra['wrong-count-not-applicable'] += 1
-        elif r3[0] != 'exc' or r3[1] not in ('ValueError', 'TypeError'):
-            ctx.violation('wrong-leaf-count', f'{PROP}:wrong-leaf-count', case, repr(r3))
+        # wrong leaf count: one inner part (first / last) replaced by a list of k leaves, for every k != n up to 2n+1
+        # (deficits, and surpluses both smaller and larger than one whole inner part)
+        for pos in sorted({0, m - 1}):
+            for k in range(2 * n + 2):
+                if k == n:
+                    continue
+                parts = list(inners)
+                parts[pos] = [un.Leaf(-1 - q) for q in range(k)]
+                wrong = ref_unflatten(oflat.desc, parts)
+                r3 = outcome_of(lambda: optree.tree_transpose(ospec, ispec, wrong, is_leaf=kw['is_leaf']))
+                ctx.extra['wrong-count-cases'] += 1
+                if e1.ref_flatten(wrong, cfg).desc.num_leaves == m * n:
+                    ctx.extra['wrong-count-not-applicable'] += 1
+                elif r3[0] != 'exc' or r3[1] not in ('ValueError', 'TypeError'):
+                    ctx.violation('wrong-leaf-count', f'{PROP}:wrong-leaf-count', {**case, 'position': pos, 'k': k},
+                                  f'{m}x{n} transposition given {m * n - n + k} leaves: {r3!r}')
         # ---- transpose_map ----------------------------------------------------------------------
         rest, _ = gen.build(odsl, U)
         rflat = e1.ref_flatten(rest, cfg)
@@ -176,7 +185,7 @@ def check(ctx, otree, leaves0, odsl, cfg):  # noqa: C901, PLR0912, PLR0915
 
 
 def run_shard(ctx):
-    preds = ['none', 'is_tuple']
+    preds = ['none', 'tuple_or_none']
     modes = None
     e1.drive(ctx, ctx.tier, lambda tree, leaves, dsl, cfg: check(ctx, tree, leaves, dsl, cfg),
              profile='medium', cfgs=e1.configs(ctx.tier, predicates=preds, modes=modes))
